@@ -18,5 +18,6 @@ import (
 	_ "verifharness/internal/c15"
 	_ "verifharness/internal/c16"
 	_ "verifharness/internal/c17"
+	_ "verifharness/internal/c19"
 	_ "verifharness/internal/c20"
 )
